@@ -11,7 +11,8 @@ EXPLANATION = (
     "the result object is a constructor result or self.deepcopy(). DECLINED: that the right-expansion amount n - min_pow2(val) is large enough for losslessness "
     "(min_pow2 is a loop over the data)."
     ' Added after the third round of seeded changes: codes produced by a shift reach the buffer through set_val or the in-place >> only (C02.R1); shifting= keywords reach the final configuration (C20.R2).'
-    ' Added after the fourth round of seeded changes: C20.R8 objects carry only the documented attributes and no function writes module-level containers (no caches / memos that go stale).')
+    ' Added after the fourth round of seeded changes: C20.R8 objects carry only the documented attributes and no function writes module-level containers (no caches / memos that go stale).'
+    ' Added after the fifth round of seeded changes: C20.R8 also forbids mutable default arguments and private attributes hung on operands (x._cache, x.__dict__[...]).')
 ASSUMPTIONS = ["|c >> n| <= |c| and c >> n == floor(c / 2^n) (sign-filling) for Python ints and int64", "c << n == c * 2^n below the carrier's capacity"]
 TRUSTED = ["CPython ast", "fxlint term normaliser"]
 
